@@ -40,6 +40,18 @@ func c16Warmup() {
 			f()
 		}
 	}
+	for _, l := range [][]string{spg.AgileWords, spg.AgileSyllables, spg.AgileSyllables[:64]} {
+		if wl, err := spg.NewWordList(l); err == nil {
+			r := spg.NewWLRecipe(3, wl)
+			r.Capitalize = spg.CSRandom
+			// a caller-made separator that can never be generated
+			r.SeparatorFunc = spg.NewSFFunction(spg.CharRecipe{Length: 1, Allow: spg.All, Require: spg.Digits | spg.Symbols})
+			r.Generate()
+			r.SeparatorFunc = spg.NewSFFunction(spg.CharRecipe{Length: 1, Allow: spg.All, Require: spg.Symbols})
+			r.Generate()
+			r.Entropy()
+		}
+	}
 }
 
 var c16Flags = map[string]spg.CTFlag{"Uppers": spg.Uppers, "Lowers": spg.Lowers, "Digits": spg.Digits, "Symbols": spg.Symbols, "Ambiguous": spg.Ambiguous}
@@ -265,7 +277,7 @@ func TestC16(t *testing.T) {
 		// this process (catches package-level state keyed too coarsely)
 		c16Warmup()
 		for i, it := range items {
-			if i%ev.Cfg.NShards != ev.Cfg.Shard || it.What == "list" {
+			if i%ev.Cfg.NShards != ev.Cfg.Shard {
 				continue
 			}
 			it.After = true
